@@ -11,7 +11,7 @@ SUITES = {
 PROPS = {
     "C19": dict(
         suite="ante",
-        modules=["CantoVerif.Props.C19"],
+        modules=["CantoVerif.Props.C19", "CantoVerif.Bridge.AnteTables"],
         theorems=[
             "CV.Ante.eth_only_via_eth_path", "CV.Ante.unknown_ext_rejected", "CV.Ante.dynamic_fee_ext_rejected",
             "CV.Ante.no_eth_in_cosmos_or_eip712", "CV.Ante.authz_blocked", "CV.Ante.authz_exec_blocked", "CV.Ante.authz_grant_blocked",
@@ -19,6 +19,11 @@ PROPS = {
             "CV.Ante.depth5_clean_passes", "CV.Ante.siblings_count", "CV.Ante.disabled_list_complete", "CV.Ante.first_option_only",
             "CV.Ante.route_monitors", "CV.Ante.agrees_self",
             "CV.Ante.bad_check", "CV.Ante.deep_check", "CV.Ante.clean_check",
+            # translator tie (factx/tables.go): the wiring the model is about, read off the source as tables - chains start with
+            # reject-then-authz-limiter from ethermint's package, two-case dispatch with a rejecting default, the disabled list
+            "CV.Bridge.AnteTables.cosmos_chains_start_with_reject_then_authz", "CV.Bridge.AnteTables.ethante_is_ethermint",
+            "CV.Bridge.AnteTables.eth_chain_validates_shape_before_signature", "CV.Bridge.AnteTables.ext_dispatch",
+            "CV.Bridge.AnteTables.disabled_list_bridge",
         ],
         comps={"route"},
         assumptions=[
